@@ -26,6 +26,15 @@ def reproduces(f):
         chk.set("timeout", 20000)
         chk.add(s._solver.assertions())
         return str(chk.check()) == e["result"]
+    if e["kind"] == "suboptimal":
+        # the configured optimiser returns a schedule although a strictly better valid one exists
+        # (z3's answer varies from call to call inside one process: repeated up to `repeat` times)
+        for _ in range(e.get("repeat", 1)):
+            with smrun.silent():
+                r = smrun.run_real_solve(f["script"], dict(e["cfg"]))
+            if bool(r.get("result")) and r.get("better_status") == "sat":
+                return True
+        return False
     if e["kind"] == "order_pair":
         def verdict(script):
             r = pslib.Real()
